@@ -102,6 +102,13 @@ def check(run):
     _, races = run_race(run, "syncset-stress", [dict(threads=8, ops=150, keys=3, seed=run.seed, rounds=5 if q else 50)])
     for rp in races:
         race_rejection(run, "syncset-stress", rp)
+    # free-running rounds (no hooks needed): stable members, never-added values, churn on a few other values
+    stab = run_driver(run, "syncset-stable", [dict(rounds=(300 if q else 5000), stable=ns, churnvals=cv, churners=ch, observers=2, ops=300, seed=run.seed)
+                                              for ns, cv, ch in ((1, 1, 2), (1, 2, 3), (3, 2, 4), (0, 1, 2), (8, 4, 6))])
+    ssegs = [[dict(ev="reset"), e] for e in stab]
+    validate(run, "syncmap", "SetAbsTrace", dict(NK=3, NT=8), ssegs, [], plans=None, label="stable members under churn")
+    for r in run.rejections:
+        r["fact"] = True
     allh = h1 + h2
     segs, srcs = history_segments(allh)
     validate(run, "syncmap", "SetAbsTrace", dict(NK=3, NT=8), segs, [], plans=replay_plans(srcs), label="history")
